@@ -4,6 +4,7 @@ import (
 	"bytes"
 	"encoding/binary"
 	"fmt"
+	"math/big"
 	"strconv"
 	"strings"
 
@@ -34,6 +35,7 @@ type scope struct {
 	attOwner string        // audit record (owner, auditor)
 	attAud   string
 	certOwn  string
+	certSer  *big.Int // revoke: the one certificate it names (serial read as a decimal number)
 	none     bool // no akash record may change (bank send)
 }
 
@@ -76,7 +78,11 @@ func assignedParty(msg sdk.Msg) (string, scope) {
 	case *ctypes.MsgCreateCertificate:
 		return m.Owner, scope{certOwn: m.Owner}
 	case *ctypes.MsgRevokeCertificate:
-		return m.ID.Owner, scope{certOwn: m.ID.Owner}
+		ser, ok := new(big.Int).SetString(m.ID.Serial, 10)
+		if !ok {
+			ser = big.NewInt(-1) // names no certificate
+		}
+		return m.ID.Owner, scope{certOwn: m.ID.Owner, certSer: ser}
 	case *banktypes.MsgSend:
 		return m.FromAddress, scope{none: true}
 	}
@@ -164,6 +170,9 @@ func inScope(ch KVChange, sc scope) (bool, string) {
 		return false, fmt.Sprintf("attestation record %x", ch.Key)
 	case "cert":
 		if sc.certOwn != "" && len(ch.Key) >= 1+sdk.AddrLen && bytes.Equal(ch.Key[1:1+sdk.AddrLen], mustAddr(sc.certOwn).Bytes()) {
+			if sc.certSer != nil && (sc.certSer.Sign() < 0 || !bytes.Equal(ch.Key[1+sdk.AddrLen:], sc.certSer.Bytes())) {
+				return false, fmt.Sprintf("certificate serial %s of the same owner (the message names serial %s)", new(big.Int).SetBytes(ch.Key[1+sdk.AddrLen:]), sc.certSer)
+			}
 			return true, ""
 		}
 		return false, fmt.Sprintf("certificate record %x", ch.Key)
@@ -237,6 +246,23 @@ func (cs *checkerSet) c06Tx(c *TxCtx) *core.Violation {
 				if g != 0 && g != sc.gseq {
 					return r.Flag("C06/touches-other-group", "%s names group %d but changed a %s of group %d of the same (still active) deployment", describeOp(c.W, c.Op), sc.gseq, what, g)
 				}
+			}
+		}
+	}
+	// a provider's authority over the tenant's order and group derives from its live bid: a close-bid or
+	// withdraw naming a bid that has already ended (closed, lost) changes nothing
+	if prov := providerOfAction(c.Op.Msg); prov != "" {
+		var bidID mtypes.BidID
+		switch m := c.Op.Msg.(type) {
+		case *mtypes.MsgCloseBid:
+			bidID = m.BidID
+		case *mtypes.MsgWithdrawLease:
+			bidID = mtypes.BidID(m.LeaseID)
+		}
+		if b, ok := c.Before.Bids[bid(bidID)]; ok && b.State != mtypes.BidOpen && b.State != mtypes.BidActive {
+			if chs := DiffRaw(c.Before, c.After); len(chs) > 0 {
+				return r.Flag("C06/acts-through-ended-bid", "%s succeeded although the bid it names was already %s, and changed %d records (first: %s-store key type %d)",
+					describeOp(c.W, c.Op), b.State, len(chs), chs[0].Store, chs[0].Key[0])
 			}
 		}
 	}
@@ -317,7 +343,7 @@ func covers(have map[string]bool, req types.Attributes) bool {
 }
 
 // bidAdmissible is the statement of C08 as a predicate over the pre-state (sets, no shared code).
-func bidAdmissible(w *World, s *Snap, m *mtypes.MsgCreateBid) string {
+func (cs *checkerSet) bidAdmissible(w *World, s *Snap, m *mtypes.MsgCreateBid) string {
 	o, ok := s.Orders[oid(m.Order)]
 	if !ok {
 		return "order does not exist"
@@ -325,9 +351,13 @@ func bidAdmissible(w *World, s *Snap, m *mtypes.MsgCreateBid) string {
 	if o.State != mtypes.OrderOpen {
 		return "order is " + o.State.String()
 	}
-	prov, ok := s.Providers[m.Provider]
-	if !ok {
+	if _, ok := s.Providers[m.Provider]; !ok {
 		return "provider is not registered"
+	}
+	// the provider's attributes are what it last declared (history), not whatever the store holds
+	provAttrs, ok := cs.declared[m.Provider]
+	if !ok {
+		return "provider never declared itself in this history"
 	}
 	if pa, err := sdk.AccAddressFromBech32(m.Provider); err != nil {
 		return "provider address does not decode"
@@ -346,17 +376,23 @@ func bidAdmissible(w *World, s *Snap, m *mtypes.MsgCreateBid) string {
 	}
 	req := o.Spec.Requirements
 	if len(req.SignedBy.AllOf) == 0 && len(req.SignedBy.AnyOf) == 0 {
-		if !covers(attrSet(prov.Attributes), req.Attributes) {
-			return fmt.Sprintf("own attributes %v do not cover %v", prov.Attributes, req.Attributes)
+		if !covers(attrSet(provAttrs), req.Attributes) {
+			return fmt.Sprintf("own attributes %v do not cover %v", provAttrs, req.Attributes)
 		}
 		return ""
 	}
+	// an auditor's attestation is what it signed and did not withdraw (history): a later signature of a
+	// key replaces the earlier value
 	attested := func(auditor string) (map[string]bool, bool) {
-		rec, ok := s.Attest[m.Provider+"|"+auditor]
+		rec, ok := cs.att[m.Provider+"|"+auditor]
 		if !ok {
 			return nil, false
 		}
-		return attrSet(rec.Attributes), true
+		set := map[string]bool{}
+		for k, v := range rec {
+			set[k+"\x00"+v] = true
+		}
+		return set, true
 	}
 	for _, a := range req.SignedBy.AllOf {
 		set, ok := attested(a)
@@ -382,7 +418,7 @@ func (cs *checkerSet) c08Tx(c *TxCtx) *core.Violation {
 	r := cs.r
 	switch m := c.Op.Msg.(type) {
 	case *mtypes.MsgCreateBid:
-		why := bidAdmissible(c.W, c.Before, m)
+		why := cs.bidAdmissible(c.W, c.Before, m)
 		if o, ok := c.Before.Orders[oid(m.Order)]; ok {
 			req := o.Spec.Requirements
 			switch {
@@ -403,10 +439,39 @@ func (cs *checkerSet) c08Tx(c *TxCtx) *core.Violation {
 		if !c.OK && why != "" {
 			r.Count("probe:inadmissible-bid-rejected")
 		}
+	case *atypes.MsgSignProviderAttributes:
+		if c.OK {
+			k := m.Owner + "|" + m.Auditor
+			if cs.att[k] == nil {
+				cs.att[k] = map[string]string{}
+			}
+			for _, a := range m.Attributes {
+				cs.att[k][a.Key] = a.Value
+			}
+		}
+	case *atypes.MsgDeleteProviderAttributes:
+		if c.OK {
+			k := m.Owner + "|" + m.Auditor
+			if len(m.Keys) == 0 {
+				delete(cs.att, k)
+			} else {
+				for _, key := range m.Keys {
+					delete(cs.att[k], key)
+				}
+				if len(cs.att[k]) == 0 {
+					delete(cs.att, k)
+				}
+			}
+		}
+	case *ptypes.MsgCreateProvider:
+		if c.OK {
+			cs.declared[m.Owner] = append(types.Attributes{}, m.Attributes...)
+		}
 	case *ptypes.MsgUpdateProvider:
 		if !c.OK {
 			return nil
 		}
+		defer func() { cs.declared[m.Owner] = append(types.Attributes{}, m.Attributes...) }()
 		newAttrs := attrSet(m.Attributes)
 		for _, k := range keysOf(c.Before.Leases) {
 			l := c.Before.Leases[k]
